@@ -185,7 +185,7 @@ fn swap_grid(r: &mut Runner, thorough: bool) {
     let res: Vec<(u64, u64, Vec<(Violation, Value)>)> = allow_lists
         .par_iter()
         .map(|allow| {
-            let kv = treasury_kv(&p20("adm"), &trader, allow.clone());
+            let Some(kv) = crate::own::try_treasury_kv(&p20("adm"), &trader, allow.clone()) else { return (0, 0, vec![]) };
             let mut n = 0u64;
             let mut acc = 0u64;
             let mut vs = vec![];
@@ -388,7 +388,7 @@ pub fn panic_battery(r: &mut Runner) {
         }
     };
     for allow in &allow_sets {
-        let kv = treasury_kv(&p20("adm"), &trader, allow.clone());
+        let Some(kv) = crate::own::try_treasury_kv(&p20("adm"), &trader, allow.clone()) else { continue };
         for route in &cands {
             for c in &coins {
                 for sender in [&trader, &p20("x")] {
